@@ -194,13 +194,17 @@ def evaluate(ctx, text, count=True):
         t1, c1, e1 = parse_canon(text, True)
     except RecursionError:
         return [], 0, None
-    if work.uncertain(res, ref_err) or work.skip_known(ctx, text, res):
+    # triggers of parser-side findings (other properties') take the whole case away; the triggers of this
+    # property's own open findings concern what the *printer* does with a comment and only take the
+    # print-and-re-read half away: capture itself is still compared and audited
+    own = getattr(ctx, '_own_suppressed', set())
+    if work.uncertain(res, ref_err) or work.skip_known(ctx, text, res, names=ctx._suppressed - own):
         return [], 0, None
-    if t1 is not None:
-        for name in ctx._suppressed:
-            if known.trigger_tree(name, t1):
-                ctx.count('known_trigger:' + name)
-                return [], 0, None
+    printer_finding = False
+    for name in own:
+        if known.trigger(name, text, res) or (t1 is not None and known.trigger_tree(name, t1)):
+            ctx.count('known_trigger:' + name)
+            printer_finding = True
     if count:
         ctx.hit('parse_pair')
     v = judge_pair((c0, e0), (c1, e1))
@@ -214,6 +218,8 @@ def evaluate(ctx, text, count=True):
         if res is not None:
             ctx.count('source_comments', len(res.comments))
             ctx.count('attached_comments', n)
+    if printer_finding:
+        return viol, n, None
     es5 = res is not None and refjs.canon(res.tree) == c1
     seq = comment_sequence(t1)
     holders = {}
@@ -288,6 +294,7 @@ def evaluate(ctx, text, count=True):
 class _Quiet(object):
     def __init__(self, ctx):
         self._suppressed = ctx._suppressed
+        self._own_suppressed = getattr(ctx, '_own_suppressed', set())
 
     def count(self, *a, **k):
         pass
@@ -374,5 +381,6 @@ def replay(ctx, witness):
 def canary(ctx, spec):
     sub = type(ctx)(ctx.prop, ctx.tier, ctx.seed, 0, 1, 30)
     sub._suppressed = set()
+    sub._own_suppressed = set()
     check(sub, spec['text'], 'canary')
     return next(iter(sub.viol_count), None)
